@@ -9,6 +9,7 @@ def run(chk):
     finally:
         c08.PREFIX = 'C08'
     lines_rule(chk)
+    order_rule(chk)
     chk.undecide('crash-freedom of rendering: erg_common::error::format_context computes `ln_end - ln_begin` unchecked; it traps only if a Location with ln_end < ln_begin '
                  'is constructible, which is not established statically, so it is not reported')
     return ('A diagnostic location is built from token positions (Location::concat of token locs), so a drifting token column is a drifting caret: the column rules of the lexer '
@@ -57,3 +58,83 @@ def lines_rule(chk):
                 chk.bad('C24-lines', 'Input::reread_lines', key, 'Input::reread_lines splits `%s` into lines without normalize_newline: after a lone carriage return the lexer is one line '
                         'ahead of the renderer, the diagnostic shows an empty or a wrong source line' % T.show(c['r'])[:60], IO, c.get('l'))
     chk.floor('C24 line-splitting sites in reread_lines', sites, 2)
+
+
+def order_rule(chk):
+    """columns of two different locations are comparable only on one line"""
+    from sa import facts as F, tree as T
+    fx = F.Facts()
+    ERR = 'crates/erg_common/error.rs'
+    chk.rule('C24-order', 'in the methods of Location, a comparison between a column of one location and a column of another one stands in a condition that also relates their lines '
+                          '(columns of different lines are unrelated numbers): a combined location whose begin / end were chosen by columns alone can end before it begins — '
+                          '`line 3..2`, columns from the wrong lines, and format_context subtracts the line numbers unchecked')
+    nfn = ncmp = 0
+
+    def classify(e, binds):
+        """(location name, 'ln'|'col') of an expression: `x.col_begin()` / a binding of such a scrutinee component"""
+        e = T.peel(e)
+        if e.get('k') == 'Local' and e.get('id') in binds:
+            return binds[e['id']]
+        if e.get('k') == 'MCall' and e['n'] in ('unwrap', 'unwrap_or', 'unwrap_or_default'):
+            return classify(e['r'], binds)
+        if e.get('k') == 'MCall' and e['n'] in ('col_begin', 'col_end', 'ln_begin', 'ln_end'):
+            return (T.show(T.peel(e['r'])), 'col' if e['n'].startswith('col') else 'ln')
+        return None
+
+    def conj(e):
+        e = T.peel(e)
+        if e.get('k') == 'Binary' and e['op'] == '&&':
+            return conj(e['x']) + conj(e['y'])
+        return [e]
+    for f in fx.file(ERR)['fns']:
+        nm = T.norm(f['path'])
+        if not nm.startswith('Location::'):
+            continue
+        nfn += 1
+        # every condition (arm guard / if condition) with the bindings in scope and the conditions that enclose it
+        conds = []          # (condition expression, bindings, [enclosing condition expressions])
+        for m, ctx in T.walk_ctx(f['body']):
+            outer = [c[1] for c in ctx if c[0] == 'if'] + [c[2]['g'] for c in ctx if c[0] == 'arm' and 'g' in c[2]]
+            if m.get('k') == 'Match':
+                sx = T.peel(m['x'])
+                comps = sx['a'] if sx.get('k') == 'Tup' else [sx]
+                for arm in m['arms']:
+                    binds = {}
+                    ps = arm['pat']['p'] if arm['pat'].get('k') == 'PTuple' and len(arm['pat'].get('p', [])) == len(comps) else [arm['pat']]
+                    if len(ps) == len(comps):
+                        for p_, c_ in zip(ps, comps):
+                            cl = classify(c_, {})
+                            if cl:
+                                for b in T.walk(p_):
+                                    if b.get('k') == 'Bind':
+                                        binds[b['id']] = cl
+                    if 'g' in arm:
+                        conds.append((arm['g'], binds, outer))
+            if m.get('k') == 'If':
+                conds.append((m['c'], {}, outer))
+
+        def relations(e, binds):
+            out = []
+            for c in T.walk(e):
+                if c.get('k') == 'Binary' and c['op'] in ('<', '<=', '>', '>=', '==', '!='):
+                    a, b = classify(c['x'], binds), classify(c['y'], binds)
+                    if a and b and a[0] != b[0]:
+                        out.append((a, b, c))
+            return out
+        for cond, binds, outer in conds:
+            rel = [r for c in conj(cond) for r in relations(c, binds) if r[2] is T.peel(c)]
+            around = rel + [r for o in outer for r in relations(o, binds)]
+            for a, b, c in rel:
+                if a[1] == 'col' and b[1] == 'col':
+                    ncmp += 1
+                    lines_related = any(x[1] == 'ln' and y[1] == 'ln' and {x[0], y[0]} == {a[0], b[0]} for x, y, _ in around)
+                    key = '%s:%s' % (nm, T.norm(T.show(c))[:30])
+                    if lines_related:
+                        chk.ok('C24-order', key)
+                    else:
+                        chk.bad('C24-order', nm, 'cols-without-lines:' + T.norm(T.show(c))[:30], '%s decides with `%s` (a column of %s against a column of %s) and never relates their lines: for '
+                                'parts on different lines the combined location gets `ln_end < ln_begin`, the header prints `line 3..2` and format_context panics on `ln_end - ln_begin`'
+                                % (nm, T.show(c)[:40], a[0], b[0]), ERR, c.get('l'))
+    chk.floor('methods of Location', nfn, 5)
+    if ncmp == 0:
+        chk.ok('C24-order', 'no-cross-location-column-comparison', sample='%d methods of Location: no column of one location is compared with a column of another' % nfn)
